@@ -88,6 +88,7 @@ func vfStartSession(r *vfRun, ops []vfOp) *vfSession {
 	s.wc.dataTag = s.tag
 	s.wc.nextID = 10 + uint32(s.tag%5000) // request ids vary per run
 	s.srv.c2s.noFrag = sc.cfg("nofrag", 0) != 0
+	s.srv.c2s.errWithData = sc.cfg("errwithdata", 0) != 0
 	return s
 }
 
